@@ -705,6 +705,21 @@ func (l *PartitionLog) computeSegmentRange(seg segmentRange, entries []*IndexEnt
 	end := endLimit - 1
 	if maxBytes > 0 {
 		maxEnd := start + int64(maxBytes) - 1
+		if entry.Offset < offset {
+			// Sparse index: the read starts at an entry before the requested
+			// offset. Never cut before the next entry, or a small maxBytes
+			// returns only earlier batches and the consumer cannot progress.
+			blockEnd := endLimit - 1
+			for _, e := range entries {
+				if e.Offset > entry.Offset {
+					blockEnd = int64(e.Position) - 1
+					break
+				}
+			}
+			if maxEnd < blockEnd {
+				maxEnd = blockEnd
+			}
+		}
 		if maxEnd < end {
 			end = maxEnd
 		}
